@@ -1,6 +1,8 @@
+import Astits.Driver.C02
 import Astits.Driver.C10
 import Astits.Driver.C11
 import Astits.Driver.C12
+import Astits.Driver.C13
 import Astits.Driver.C14
 import Astits.Driver.C15
 open Astits
@@ -13,9 +15,11 @@ def main (args : List String) : IO UInt32 := do
     let t := Tier.ofString tier
     let s : UInt64 := UInt64.ofNat (seed.toNat?.getD 0) * 0x9E3779B97F4A7C15 + 0x1234567
     let act : Option (Emit Unit) := match prop with
+      | "C02" => some (DriverC02.run t)
       | "C10" => some (DriverC10.run t)
       | "C11" => some (DriverC11.run t)
       | "C12" => some (DriverC12.run t)
+      | "C13" => some (DriverC13.run t)
       | "C14" => some (DriverC14.run t)
       | "C15" => some (DriverC15.run t)
       | _ => none
